@@ -2,6 +2,7 @@
 (* Layer R for C09: user-type references, missing types, and which type graphs have a     *)
 (* finite inhabitant.  Works on the abstract nodes of Sem.tla.                               *)
 EXTENDS Integers, Sequences, FiniteSets, Sem
+CONSTANT KeysOptDefault            \* the KeysAreOptionalByDefault option of the root and of every type
 
 RECURSIVE Refs(_)
 \* every user-type name a node's text references, in any position
@@ -38,7 +39,7 @@ NodeInh(env, n, S) ==
                                    ELSE IF m.t = "set" /\ \E k \in DOMAIN m.rules : m.rules[k].v.t = "tref"
                                         THEN \A k \in DOMAIN m.rules : m.rules[k].v.t = "tref" => m.rules[k].v.s \in S
                                         ELSE TRUE
-  ELSE CASE n.t = "obj" -> /\ \A i \in DOMAIN n.props : Optional(n.props[i], FALSE) \/ NodeInh(env, n.props[i].n, S)
+  ELSE CASE n.t = "obj" -> /\ \A i \in DOMAIN n.props : Optional(n.props[i], KeysOptDefault) \/ NodeInh(env, n.props[i].n, S)
                            /\ \A p \in {ParentNames(n)[i] : i \in DOMAIN ParentNames(n)} : p \in S
          [] OTHER -> TRUE          \* literals; arrays (the empty array is an inhabitant)
 RECURSIVE InhFix(_, _)
